@@ -174,12 +174,12 @@ def for_with_invariant(ip, node, frame, spec, it):
         n = z3.If(hi > lo, hi - lo, z3.IntVal(0))
         elem = lambda i: ops.concretize(Sym(lo + i, 'int'))
     elif isinstance(it, SymSeq):
-        seq = SymSeq(it.t, it.elem, it.facts)          # iteration over a list mutated in the body is not modelled
-        n = z3.Length(seq.t)
+        seq = it.copy()          # iteration over a list mutated in the body is not modelled
+        n = seq.n
         elem = lambda i: lib.getitem(ip, seq, Sym(i, 'int'))
     elif isinstance(it, lib.Enumerate) and isinstance(it.inner, SymSeq):
-        seq = SymSeq(it.inner.t, it.inner.elem, it.inner.facts)
-        n = z3.Length(seq.t)
+        seq = it.inner.copy()
+        n = seq.n
         st = it.start
         elem = lambda i: (ops.binop('Add', st, Sym(i, 'int')), lib.getitem(ip, seq, Sym(i, 'int')))
     elif isinstance(it, PyList) or isinstance(it, tuple):
